@@ -108,6 +108,19 @@ CHECKS.update({
          "DESIGN.md §3 C08"),
 })
 
+CHECKS.update({
+ "C04": ("E2 wire (real link setup over an interposed in-memory connection)", "fault_enumeration",
+         "runtime fault injection on the six handshake messages (bit flip at every byte, truncation, drop, duplicate, swap, replay from an earlier session against kept and restarted state, reflection, impostor with a foreign key / full transcript replay) with the real setup code on both ends; oracle on the receiving router's link registry, routing table and setup result; honest configuration matrix with traffic exchange as positive control",
+         "The real handleSetup runs on both ends of a wire that applies exactly one fault per run at every message position and direction; the router that received the faulty message must register no link and add no peer route; honest runs over the universe/secret matrix must complete exactly when the admission rules are met, report the true peer and carry byte-identical traffic both ways.",
+         "Crypto strength assumed; one random bit per byte in quick, all 8 bits in thorough; a stuck handshake is ended by closing the connection (what a timeout would do).",
+         "DESIGN.md §3 C04"),
+ "C05": ("E2 wire (real link reader/writer workers)", "fault_enumeration",
+         "runtime fault injection on the post-handshake byte stream of a real link (bit flips per link-frame field, truncation, drop, duplicate/hold at window-edge distances, swap, replay, injected random and well-framed garbage) with unique-id frames of every size tier; oracle: delivered multiset ⊆ sent (byte-identical, multiplicity ≤ 1), bounded-progress after desynchronisation, canary search on the wire, worker-panic alerts",
+         "Frames of every message type and every pooled size tier up to the 64 KiB link maximum cross a real link while the wire applies one fault plan; what the receiver's frame handler gets is compared byte for byte with what was handed to the link; non-desynchronising faults may lose only the frames they touched; after desynchronising ones the sender transmits more than 100 x 64 KiB of intact frames and the link must be closed or deliver a suffix.",
+         "One priority class per run (the writer reorders across classes); wire messages are mapped to frames by order.",
+         "DESIGN.md §3 C05"),
+})
+
 NOT_YET = "check not implemented yet in this revision of /verif (work in progress; see DESIGN.md §8)"
 
 def main():
